@@ -106,7 +106,18 @@ let run_case_with (explained : bool) (line : string) : string =
         let fam = i 2 in
         let (bits, len) = parse_pfx (t 3) in
         let tag = i 4 in
-        let path = if t 5 = "-" then [] else Stdlib.List.map (fun h -> if h = "s" then HSeg else HAsn (n (int_of_string h))) (String.split_on_char ',' (t 5)) in
+        (* the segments of the AS_PATH as the harness encodes them: runs of AS numbers are AS_SEQUENCE
+           segments, 's' an AS_SET, 'n' ends a sequence segment (the next AS number starts a new one) *)
+        let segs =
+          if t 5 = "-" then [] else begin
+            let out = ref [] and run = ref [] in
+            let flush () = if !run <> [] then (out := SegSeq (Stdlib.List.rev !run) :: !out; run := []) in
+            Stdlib.List.iter (fun h ->
+                if h = "s" then (flush (); out := SegOther :: !out)
+                else if h = "n" then flush ()
+                else run := n (int_of_string h) :: !run) (String.split_on_char ',' (t 5));
+            flush (); Stdlib.List.rev !out end in
+        let path = rq_hops segs in
         let cattrs = cattrs_of_tok (t 6) in
         tbl := (tag, { pa_path = path; pa_cattrs = cattrs }) :: Stdlib.List.remove_assoc tag !tbl;
         let key = ((n fam, rq_code (take len bits)), n (i 1)) in
